@@ -75,6 +75,7 @@ int aes_cbc_padding_decrypt(const AES_KEY *key, const uint8_t iv[16],
 	uint8_t *out, size_t *outlen)
 {
 	uint8_t block[16];
+	uint8_t last_iv[16];
 	size_t len = sizeof(block);
 	int padding;
 
@@ -87,8 +88,10 @@ int aes_cbc_padding_decrypt(const AES_KEY *key, const uint8_t iv[16],
 		return -1;
 	}
 	if (inlen > 16) {
+		// with out == in the last-but-one ciphertext block is overwritten below: keep a copy
+		memcpy(last_iv, in + inlen - 32, 16);
 		aes_cbc_decrypt(key, iv, in, inlen/16 - 1, out);
-		iv = in + inlen - 32;
+		iv = last_iv;
 	}
 	aes_cbc_decrypt(key, iv, in + inlen - 16, 1, block);
 	padding = block[15];
